@@ -122,14 +122,34 @@ def gen_union_case(rng) -> dict:
             {"name": "pet", "required": False, "nullable": False, "schema": ["union", rng.choice(["oneOf", "anyOf"]), vids, None]},
             {"name": "all-pets", "required": False, "nullable": False,
              "schema": ["arr", ["union", rng.choice(["oneOf", "anyOf"]), vids, None]]}]
-    if rng.random() < 0.5:
+    if rng.random() < 0.7:
         a, b = k + 1, k + 2
+        if rng.random() < 0.6:
+            # the variants type the discriminator as an enum; values that differ only in case or '-'/' ' vs '_'
+            # (they derive the same enum MEMBER NAME) are all legitimate, distinct discriminator values
+            groups = rng.sample([["user-created", "user_created", "User-Created"], ["system", "System", "SYSTEM"],
+                                 ["a b", "a_b", "a-b"], ["x", "X"]], 2)
+            vals = {a: [], b: []}
+            for g in groups:
+                for n_, v in enumerate(rng.sample(g, rng.randint(2, len(g)))):
+                    vals[a if n_ % 2 == 0 else b].append(v)
+            kind = {i: ["enum", vals[i]] for i in (a, b)}
+            mapping = [[v, i] for i in (a, b) for v in vals[i]]
+        else:
+            kind = {a: ["str", None], b: ["str", None]}
+            mapping = [["alpha", a], ["beta", b]]
         for i, nm in ((a, "aVal"), (b, "b-val")):
             schemas.append({"id": i, "name": f"M{i}", "props": [
-                {"name": "kind", "required": True, "nullable": False, "schema": ["str", None]},
+                {"name": "kind", "required": True, "nullable": False, "schema": kind[i]},
                 {"name": nm, "required": False, "nullable": False, "schema": "int"}]})
         root.append({"name": "tagged", "required": False, "nullable": False,
-                     "schema": ["union", "oneOf", [a, b], {"prop": "kind", "mapping": [["alpha", a], ["beta", b]]}]})
+                     "schema": ["union", "oneOf", [a, b], {"prop": "kind", "mapping": mapping}]})
+    # OpenAPI 3.1 nullable spelling on inline properties, required and optional, documents with explicit null
+    for nm in rng.sample(["n-str", "nDate", "n_ref", "nInt"], rng.randint(1, 3)):
+        t = {"n-str": ["str", None], "nDate": ["str", "date-time"], "n_ref": ["ref", 1], "nInt": "int"}[nm]
+        root.append({"name": nm, "required": rng.random() < 0.6, "nullable": False,
+                     "schema": ["null31", rng.choice(["anyOf", "oneOf"]), t]})
+    n_fixed = 3 + (1 if any(p["name"] == "tagged" for p in root) else 0)
     schemas[0] = {"id": 0, "name": "M0", "props": root}
     docs = []
     n = rng.randint(4, 7)
@@ -141,8 +161,12 @@ def gen_union_case(rng) -> dict:
             kvs.append(["pet", gen_doc_obj(rng, schemas, pick(), 2, False)])
         if rng.random() < 0.6:
             kvs.append(["all-pets", ["l", [gen_doc_obj(rng, schemas, pick(), 2, False) for _ in range(rng.randint(0, 3))]]])
-        if len(root) > 3 and rng.random() < 0.6:
-            kvs.append(["tagged", gen_doc_val(rng, schemas, root[3]["schema"], 2, False)])
+        for p in root[3:]:
+            if p["name"] == "tagged":
+                if rng.random() < 0.6:
+                    kvs.append(["tagged", gen_doc_val(rng, schemas, p["schema"], 2, False)])
+            elif p["required"] or rng.random() < 0.6:
+                kvs.append([p["name"], gen_doc_val(rng, schemas, p["schema"], 2, False)])
         rng.shuffle(kvs)
         docs.append([0, ["m", kvs]])
     return {"schemas": schemas, "docs": docs, "oracle_only": True}
@@ -239,6 +263,8 @@ def gen_doc_val(rng, schemas, ps, depth, z_ok) -> Any:
     if k == "arr":
         n = rng.randint(0, 2) if depth > 0 else 0
         return ["l", [gen_doc_val(rng, schemas, ps[1], depth - 1, z_ok) for _ in range(n)]]
+    if k == "null31":
+        return ["n"] if rng.random() < 0.5 else gen_doc_val(rng, schemas, ps[2], depth, z_ok)
     if k == "union":
         if ps[3]:
             val, sid = rng.choice(ps[3]["mapping"])
@@ -290,6 +316,8 @@ def to_openapi(case: dict) -> dict:
             return {"type": "array", "items": conv(ps[1], own)}
         if k == "map":
             return {"type": "object", "additionalProperties": conv(ps[1], own)}
+        if k == "null31":     # OpenAPI 3.1 nullable spelling: anyOf/oneOf: [T, {type: "null"}]
+            return {ps[1]: [conv(ps[2], own), {"type": "null"}]}
         if k == "union":      # ["union", "oneOf"|"anyOf", [ids], discriminator | None]
             d = {ps[1]: [{"$ref": f"#/components/schemas/M{i}"} for i in ps[2]]}
             if ps[3]:
